@@ -8,5 +8,6 @@ PROP="$1"; TIER="${2:-quick}"; shift; shift || true
 if [ ! -x /verif/bin/symgo ] || [ -n "$(find /verif/engine -name '*.go' -newer /verif/bin/symgo 2>/dev/null | head -1)" ]; then
   (cd /verif/engine && go build -o /verif/bin/symgo ./cmd/symgo) || { echo "INCONCLUSIVE property=$PROP engine build failed"; exit 2; }
 fi
+ulimit -v 24000000 2>/dev/null  # 24 GB address-space cap per check (solver children inherit it)
 LIMIT=1500; [ "$TIER" = thorough ] && LIMIT=7200
 exec timeout --signal=KILL ${LIMIT}s /verif/bin/symgo check -prop "$PROP" -tier "$TIER" "$@"
